@@ -179,7 +179,21 @@ Ev(U, dr, a, v, scope) ==
        IF unevP THEN nms ELSE seenProps,
        IF unevI THEN 1..n ELSE seenItems)
 
-\* The validity relation.
-Valid(U, dr, v) == Ev(U, dr, Addr(1, <<>>), v, <<>>).ok
+\* ---- the $schema switch ----
+D7http   == "http://json-schema.org/draft-07/schema#"
+D7https  == "https://json-schema.org/draft-07/schema#"
+D2020    == "https://json-schema.org/draft/2020-12/schema"
+\* The draft a universe is validated under: decided by the root's $schema alone.
+\* Any other $schema value is refused: Validate fails for every instance.
+DrOf(U) ==
+  LET s == U.docs[1].s
+  IN IF ~Has(s, "schema") THEN "2020"
+     ELSE IF s.schema \in {D7http, D7https} THEN "d7"
+     ELSE IF s.schema = D2020 THEN "2020"
+     ELSE "refused"
+
+\* The validity relation (what Resolved.Validate must decide).
+EvTop(U, v) == IF DrOf(U) = "refused" THEN Fail ELSE Ev(U, DrOf(U), Addr(1, <<>>), v, <<>>)
+Valid(U, v) == EvTop(U, v).ok
 ValidAt(U, dr, a, v, scope) == Ev(U, dr, a, v, scope).ok
 ====
